@@ -289,6 +289,47 @@ class Gen:
         raise RuntimeError('could not generate a well-formed definition')
 
 
+def loosen(rng, r, p_eoi=0.18, p_null=0.15):
+    """rewrite a regex tree so that it may leave the well-formed fragment while staying statically acceptable: `$` at ANY position (followed by
+    something, under `*` / `+` / `?`, inside alternations), and nullable sub-terms"""
+    t = r[0]
+    if rng.random() < p_eoi:
+        k = rng.random()
+        if k < 0.4:
+            return ('cat', EOI, loosen(rng, r, 0, p_null))
+        if k < 0.7:
+            return ('cat', loosen(rng, r, 0, p_null), ('cat', EOI, ('chr', 0x62)))
+        if k < 0.85:
+            return ('alt', EOI, loosen(rng, r, 0, p_null))
+        return ('opt', EOI) if rng.random() < 0.5 else ('cat', ('opt', EOI), loosen(rng, r, 0, p_null))
+    if t in ('cat', 'alt'):
+        return (t, loosen(rng, r[1], p_eoi, p_null), loosen(rng, r[2], p_eoi, p_null))
+    if t in ('star', 'plus', 'opt'):
+        return (t, loosen(rng, r[1], p_eoi, p_null))
+    if rng.random() < p_null:
+        return (rng.choice(['star', 'opt']), r)
+    return r
+
+
+def loose_definition(gen, name):
+    """a definition the static rules accept but that is NOT in the well-formed fragment the behavioural properties quantify over (some rule or
+    right context has `$` away from the tail, or matches the empty string). Only expansion and compilation are checked on these (C12)."""
+    rng = gen.rng
+    for _ in range(200):
+        d = gen.definition(name, scripted_p=0.2, ctx_p=0.3, max_rules=4)
+
+        def lo(it):
+            if it[0] == 'rule':
+                return ('rule', it[1], loosen(rng, it[2]), None if it[3] is None else loosen(rng, it[3]))
+            if it[0] == 'ruleset':
+                return ('ruleset', it[1], [lo(x) for x in it[2]])
+            return it
+        d2 = {'name': name, 'items': [lo(it) for it in d['items']]}
+        if static_ok(d2) and not well_formed(d2, gen.builtins):
+            return d2
+    raise RuntimeError('could not generate a loose definition')
+
+
 # ---------------------------------------------------------------------------------------------
 # regression corpus: the reproducers of the defects found on the pinned tree, README-like cases
 
